@@ -60,7 +60,7 @@ pub fn record_solver_run(agg: &mut Agg, sc: &Scenario, out: &Outcome, viol: &[Vi
     agg.hit("fault:cutoff_fired", out.fired);
     agg.hit("fault:cutoff_fired_but_exact_anyway", out.fired && out.is_exact);
     agg.hit("fault:width_jitter", matches!(sc.width, crate::wrap::WidthPlan::Jitter { .. }));
-    agg.hit("fault:rub_slack", matches!(sc.table.rub, crate::table::Rub::Slack(_)));
+    agg.hit("fault:rub_slack", matches!(sc.table.rub, crate::table::Rub::Slack(_) | crate::table::Rub::Ragged(_)));
     agg.hit("fault:thread_count_change", sc.threads2.is_some());
     agg.hit("fault:thread_count_increase", sc.threads2.map_or(false, |n| n > sc.threads));
     agg.hit("fault:primal_seed", !sc.primal.is_empty());
